@@ -77,6 +77,7 @@ type l1LR struct {
 	req        L1Req
 	start, end int
 	called     time.Duration // harness clock (starts just after the model's) when Do was called
+	ended      time.Duration // harness clock after the response was closed
 	err        error
 	status     int
 	body       []byte
@@ -89,7 +90,15 @@ type l1LR struct {
 
 func newWorld(c Case) *world {
 	w := &world{m: rm.New(), t0: time.Now(), spec: map[string]HostSpec{}, host: map[string]*rm.Host{}, blobLen: map[string]int{}, limit: c.Limit, nMirror: len(c.Mirrors), dupFirst: c.DupMirror}
-	w.dInit, _ = c.delays()
+	w.dInit, w.dMax = c.delays()
+	switch {
+	case c.Defaults:
+		w.dMax = 30 * time.Second
+	case w.dMax == 0:
+		w.dMax = 30 * w.dInit // WithDelay: unset = 30 x delayInit (rcutil passes 10 ms instead)
+	case w.dMax < w.dInit:
+		w.dMax = w.dInit
+	}
 	for i, ms := range c.Mirrors {
 		n := mirrorName(i)
 		w.names = append(w.names, n)
@@ -283,6 +292,7 @@ func runL1Once(c Case, ev *evid.Collector) (vs []*evid.Violation, inconclusive s
 		rcancel()
 		w.m.OnArrive = nil
 		lr.end = w.m.Requests()
+		lr.ended = time.Since(w.t0)
 		lrs = append(lrs, lr)
 		// state predicate behind "every operation terminates": once a logical request is
 		// finished and closed, every per-host concurrency slot it took is free again
@@ -415,7 +425,7 @@ func runL1Once(c Case, ev *evid.Collector) (vs []*evid.Violation, inconclusive s
 	// (4) + (5)
 	var groups []group
 	for _, lr := range lrs {
-		groups = append(groups, group{start: lr.start, end: lr.end, called: lr.called, taint: lr.req.Ctx != "", read: (lr.req.Method == "GET" || lr.req.Method == "HEAD") && !lr.req.NoMirrors})
+		groups = append(groups, group{start: lr.start, end: lr.end, called: lr.called, ended: lr.ended, taint: lr.req.Ctx != "", read: (lr.req.Method == "GET" || lr.req.Method == "HEAD") && !lr.req.NoMirrors})
 	}
 	for _, v := range w.analyseLog(es, logOpts{sequential: true, groups: groups, backsOff: func(e *rm.Entry) bool {
 		lr := lrOf(e)
